@@ -12,6 +12,10 @@ C06TuApi c06_tu2_api();       // other_tu.cpp: a DIFFERENT type with the same na
 using vf::Errs;
 using vf::str;
 
+#ifdef C06_SPELL
+// the SPELLING-SENSITIVE payload class (initializer_list constructors, forwarding constructor, explicit copy, aggregates, containers of any)
+#include "c06_spell.hpp"
+#else
 // payload types on both sides of the in-place / heap decision (two words, nothrow move, alignment <= pointer)
 //                    TAG PAD  NT_MOVE TH_COPY TH_MOVE TH_ASSIGN ALIGN
 typedef pl::Tracked<1, 0,  true,  false, false, false>      Small;      //  8 bytes, nothrow move        -> in place
@@ -45,6 +49,9 @@ inline int get_val(const int& t) { return t; }
 template <class T> void set_val(T& t, int v) { t.set(v); }
 inline void set_val(int& t, int v) { t = v; }
 template <class T> T make(int v) { return T(v); }
+template <class T> struct by_value : std::true_type {};   // the value forms any_cast<T>(any&) are usable
+inline std::string vstr(int v) { return str(v); }
+#endif
 
 struct MV
 {
@@ -122,15 +129,18 @@ struct World
         {
             if (static_cast<const void*>(p) != static_cast<const void*>(cp) || static_cast<const void*>(cp) != static_cast<const void*>(ccp))
             { e.add("any_cast-identity", who + "any_cast<" + tname(tg) + "> on any* and on const any* (or any_cast<const T>) return different addresses: not the stored object"); return; }
-            if (!m[i].unspecified && get_val(*p) != m[i].value) e.add("value", who + "holds " + str(get_val(*p)));
-            if (!m[i].unspecified && get_val(*cp) != m[i].value) e.add("value", who + "const cast reads " + str(get_val(*cp)));
+            if (!m[i].unspecified && get_val(*p) != m[i].value) e.add("value", who + "holds " + vstr(get_val(*p)));
+            if (!m[i].unspecified && get_val(*cp) != m[i].value) e.add("value", who + "const cast reads " + vstr(get_val(*cp)));
         }
         // value / reference forms: value or bad_any_cast
         bool threw = false;
         int got = 0;
-        try { T v = xtl::any_cast<T>(x); got = get_val(v); } catch (const xtl::bad_any_cast&) { threw = true; }
-        if (threw == should) e.add("any_cast-value", who + "any_cast<" + tname(tg) + ">(a) " + (threw ? "threw" : "did not throw"));
-        else if (should && !m[i].unspecified && got != m[i].value) e.add("value", who + "any_cast<T>(a) returned " + str(got));
+        if constexpr (by_value<T>::value)
+        {
+            try { T v = xtl::any_cast<T>(x); got = get_val(v); } catch (const xtl::bad_any_cast&) { threw = true; }
+            if (threw == should) e.add("any_cast-value", who + "any_cast<" + tname(tg) + ">(a) " + (threw ? "threw" : "did not throw"));
+            else if (should && !m[i].unspecified && got != m[i].value) e.add("value", who + "any_cast<T>(a) returned " + vstr(got));
+        }
         threw = false;
         try { T& v = xtl::any_cast<T&>(x); if (should && &v != p) e.add("any_cast-identity", who + "any_cast<T&> does not return the stored object"); } catch (const xtl::bad_any_cast&) { threw = true; }
         if (threw == should) e.add("any_cast-ref", who + "any_cast<" + tname(tg) + "&>(a) " + (threw ? "threw" : "did not throw"));
@@ -138,16 +148,27 @@ struct World
         try { const T& v = xtl::any_cast<const T&>(cx); if (should && &v != cp) e.add("any_cast-identity", who + "any_cast<const T&>(const any&) does not return the stored object"); } catch (const xtl::bad_any_cast&) { threw = true; }
         if (threw == should) e.add("any_cast-cref", who + "any_cast<const " + tname(tg) + "&>(const a) " + (threw ? "threw" : "did not throw"));
         threw = false;
-        try { T v = xtl::any_cast<T>(cx); got = get_val(v); } catch (const xtl::bad_any_cast&) { threw = true; }
-        if (threw == should) e.add("any_cast-const-value", who + "any_cast<" + tname(tg) + ">(const a) " + (threw ? "threw" : "did not throw"));
-        else if (should && !m[i].unspecified && got != m[i].value) e.add("value", who + "any_cast<T>(const a) returned " + str(got));
+        if constexpr (by_value<T>::value)
+        {
+            try { T v = xtl::any_cast<T>(cx); got = get_val(v); } catch (const xtl::bad_any_cast&) { threw = true; }
+            if (threw == should) e.add("any_cast-const-value", who + "any_cast<" + tname(tg) + ">(const a) " + (threw ? "threw" : "did not throw"));
+            else if (should && !m[i].unspecified && got != m[i].value) e.add("value", who + "any_cast<T>(const a) returned " + vstr(got));
+        }
         if (should)
         {
             // rvalue form on a copy (copies are independent of their source)
             threw = false;
-            try { xtl::any c(cx); T v = xtl::any_cast<T>(std::move(c)); got = get_val(v); } catch (const xtl::bad_any_cast&) { threw = true; } catch (const pl::Injected&) { }
+            if constexpr (by_value<T>::value)
+            {
+                try { xtl::any c(cx); T v = xtl::any_cast<T>(std::move(c)); got = get_val(v); } catch (const xtl::bad_any_cast&) { threw = true; } catch (const pl::Injected&) { }
+            }
+            else
+            {
+                // no value form for this type (explicit copy constructor): the reference form on a copy
+                try { xtl::any c(cx); const T& v = xtl::any_cast<const T&>(std::move(c)); got = get_val(v); } catch (const xtl::bad_any_cast&) { threw = true; } catch (const pl::Injected&) { }
+            }
             if (threw) e.add("any_cast-rvalue", who + "any_cast<T>(any&&) threw on a copy");
-            else if (!m[i].unspecified && got != m[i].value) e.add("value", who + "copy holds " + str(got));
+            else if (!m[i].unspecified && got != m[i].value) e.add("value", who + "a copy of it holds " + vstr(got));
         }
     }
 
@@ -163,7 +184,7 @@ struct World
             if (x.has_value() != (m[i].type != 0)) { e.add("has_value", who + "has_value()=" + str(x.has_value()) + " model " + tname(m[i].type)); continue; }
             int ot = observed_type(i);
             if (ot != m[i].type) { e.add("type", who + "type() reports " + (ot < 0 ? "an unknown type" : tname(ot)) + " model " + tname(m[i].type)); continue; }
-            if (ot > 0 && observed_value(i) != m[i].value) e.add("value", who + "holds " + str(observed_value(i)) + " model " + tname(m[i].type) + "=" + str(m[i].value));
+            if (ot > 0 && observed_value(i) != m[i].value) e.add("value", who + "holds " + vstr(observed_value(i)) + " model " + tname(m[i].type) + "=" + str(m[i].value));
         }
     }
 
@@ -232,6 +253,38 @@ void type_ops(HX& hx, const std::vector<int>& values, int nobj)
             try { pl::Arm arm; w.a(i) = std::move(lv); w.m[i] = MV{tg, v, false}; w.ref_valid[i] = false; }
             catch (const pl::Injected&) { w.m[i] = before; }
             return true; });
+        // a CONST lvalue source (ValueType = const T&): the stored object must be a copy of it
+        hx.add_op("construct(const lvalue)", "a" + I + ":=any(const " + TN + " " + V + "&)", [i, v, tg](World& w, Errs& e) {
+            const T lv = make<T>(v);
+            w.a(i).~any();
+            try { pl::Arm arm; new (w.raw[i]) xtl::any(lv); w.m[i] = MV{tg, v, false}; w.ref_valid[i] = false; }
+            catch (const pl::Injected&) { new (w.raw[i]) xtl::any; w.m[i] = MV(); w.ref_valid[i] = false; }
+            if (get_val(lv) != v) e.add("source-modified", "constructing from a const lvalue changed the source");
+            return true; });
+        hx.add_op("assign(const lvalue)", "a" + I + "=const " + TN + " " + V + "&", [i, v, tg](World& w, Errs& e) {
+            const T lv = make<T>(v);
+            MV before = w.m[i];
+            try { pl::Arm arm; w.a(i) = lv; w.m[i] = MV{tg, v, false}; w.ref_valid[i] = false; }
+            catch (const pl::Injected&) { w.m[i] = before; }
+            if (get_val(lv) != v) e.add("source-modified", "assigning from a const lvalue changed the source");
+            return true; });
+#ifdef C06_SPELL
+        // a CONST RVALUE source (ValueType = const T): overload resolution inside the payload differs from the const lvalue case
+        hx.add_op("construct(const rvalue)", "a" + I + ":=any(const " + TN + " " + V + "&&)", [i, v, tg](World& w, Errs& e) {
+            const T lv = make<T>(v);
+            w.a(i).~any();
+            try { pl::Arm arm; new (w.raw[i]) xtl::any(std::move(lv)); w.m[i] = MV{tg, v, false}; w.ref_valid[i] = false; }
+            catch (const pl::Injected&) { new (w.raw[i]) xtl::any; w.m[i] = MV(); w.ref_valid[i] = false; }
+            if (get_val(lv) != v) e.add("source-modified", "constructing from a const rvalue changed the source");
+            return true; });
+        hx.add_op("assign(const rvalue)", "a" + I + "=const " + TN + " " + V + "&&", [i, v, tg](World& w, Errs& e) {
+            const T lv = make<T>(v);
+            MV before = w.m[i];
+            try { pl::Arm arm; w.a(i) = std::move(lv); w.m[i] = MV{tg, v, false}; w.ref_valid[i] = false; }
+            catch (const pl::Injected&) { w.m[i] = before; }
+            if (get_val(lv) != v) e.add("source-modified", "assigning from a const rvalue changed the source");
+            return true; });
+#endif
     }
     for (int i = 0; i < nobj; ++i)
     {
@@ -246,7 +299,7 @@ void type_ops(HX& hx, const std::vector<int>& values, int nobj)
 
 static void build_ops(HX& hx, int nobj, const std::vector<int>& values)
 {
-#define X(TG, T) if (g_types == "all" || (TG) < 10) type_ops<T>(hx, values, nobj);
+#define X(TG, T) if (g_types != "base" || (TG) < 10) type_ops<T>(hx, values, nobj);
     C06_TYPES(X)
 #undef X
     for (int i = 0; i < nobj; ++i)
